@@ -333,11 +333,17 @@ def random_history(g, rng, n_assert=5, p_named=0.0, queries=(), max_depth=3, def
         atoms.append(tb.var("bx", BOOL))
     steps = 0
     asserted = 0
+    seen_f = set()
     while asserted < n_assert and steps < 40:
         steps += 1
         x = rng.random()
         if x < 0.55:
             f = g.formula(atoms, fdepth)
+            for _ in range(6):
+                if f not in seen_f:
+                    break
+                f = g.formula(atoms, fdepth)
+            seen_f.add(f)
             nm = ""
             if rng.random() < p_named:
                 nname += 1
